@@ -1433,7 +1433,7 @@ def c14_write(ctx, k, what="package", mode="fail"):
     ex = Exec(ctx.funcs, intrinsics.I, max_steps=400000)
     ctx.stats = ex.stats
     ctx.bounds = ("%s::write of a package with a 2-entry signature header (5 store bytes + 3 padding), a 1-entry main header (4 store bytes) and 3 payload bytes, all contents symbolic, "
-                  "into a sink accepting %s per call, %s at a symbolic call number" % (what.capitalize(), "everything" if k == 0 else "%d byte(s)" % k, "failing for good" if mode == "fail" else "answering Interrupted once"))
+                  "into a sink accepting %s per call, %s at a symbolic call number" % (what.capitalize(), "everything" if k == 0 else "%d byte(s)" % k, {"fail": "failing for good", "intr": "answering Interrupted once", "offsets": "never failing (fail_at = 0 means no failure);"}[mode]))
 
     def setup(e):
         return dict(sig=sym_bytes(e, "s", 5, 0, 255), hdr=sym_bytes(e, "h", 4, 0, 255), content=sym_bytes(e, "c", 3, 0, 255),
@@ -1450,6 +1450,10 @@ def c14_write(ctx, k, what="package", mode="fail"):
         zero = z3.BitVecVal(0, 16)
         sink = ScriptSink(k, inp["fail_at"] if mode == "fail" else zero, inp["intr_at"] if mode == "intr" else zero)
         r = e.call_fn(wr, [Ref(Cell(target)), Ref(Cell(sink))])
+        if mode == "offsets":
+            offs = e.call_fn(ctx.impl_fn("get_package_segment_offsets", None, "PackageMetadata"), [Ref(Cell(pkg.fields[0]))])
+            sink.offsets = [x.conc() for x in offs.fields]
+            sink.ncontent = len(inp["content"])
         return r, sink, as_bytes(e, canon)
 
     def on_path(e, inp, out):
@@ -1467,6 +1471,13 @@ def c14_write(ctx, k, what="package", mode="fail"):
         ctx.cover("write succeeds", okr)
         ctx.cover("write fails", not okr)
         got = sink.data
+        if okr and mode == "offsets":
+            lead_o, sig_o, hdr_o, pay_o = sink.offsets
+            magic = [0x8e, 0xad, 0xe8, 0x01]
+            at = lambda o: len(got) >= o + 4 and not e._check(z3.Not(z3.And([g == m for g, m in zip(got[o:o + 4], magic)])))  # noqa: E731
+            if not (lead_o == 0 and at(sig_o) and at(hdr_o) and len(got) == pay_o + sink.ncontent):
+                ctx.fail("reported segment offsets are not where the segments are in the bytes the sink received", "PackageMetadata::get_package_segment_offsets / Package::write", kind="wsink", **wit())
+            return
         if okr:
             if sink.failed or len(got) != len(canon) or e._check(z3.Not(all_eq(got, canon))):
                 ctx.fail("write returns success although the sink %s" % ("reported a failure" if sink.failed else "did not receive exactly the canonical bytes"), what + "::write", kind="wsink", **wit())
@@ -1486,6 +1497,8 @@ for _k in (0, 1, 2, 5):
     HARNESSES["c14_wpkg_k%d" % _k] = (lambda k: (lambda ctx: c14_write(ctx, k, "package", "fail")))(_k)
     HARNESSES["c14_wpkg_intr_k%d" % _k] = (lambda k: (lambda ctx: c14_write(ctx, k, "package", "intr")))(_k)
     HARNESSES["c14_wmeta_k%d" % _k] = (lambda k: (lambda ctx: c14_write(ctx, k, "metadata", "fail")))(_k)
+for _k in (1, 2, 3, 5):
+    HARNESSES["c16_woff_k%d" % _k] = (lambda k: (lambda ctx: c14_write(ctx, k, "package", "offsets")))(_k)
 _ra2 = REPLAYERS["c14"]
 REPLAYERS["c14"] = lambda ctx, fl: replay_wsink(ctx, fl) if fl.get("kind") in ("wsink", "wpanic") else _ra2(ctx, fl)
 
@@ -1567,16 +1580,33 @@ def c05_file_paths(ctx, nfiles, ndirs, missing=None, kinds=("c05", "panic")):
     ex.run_all(setup, body, on_path)
 
 
+def entry_orders(ent):
+    """index-entry orders a native replay tries: ascending by tag (what rpm writes), descending, rotated - the parser accepts any order and the
+    MIR harnesses do not sort their entries, so an order-dependent lookup shows up in one of them"""
+    a = sorted(ent)
+    out = [a, list(reversed(a)), a[1:] + a[:1]]
+    uniq = []
+    for o in out:
+        if o not in uniq:
+            uniq.append(o)
+    return uniq
+
+
 def replay_paths(ctx, fl):
     import rpmbytes as RB
     n, nd = fl["nfiles"], fl["ndirs"]
     ent, st = RB.file_header(n, dirindexes=fl["idx"], ndirs=nd)
-    meta = RB.lead() + RB.sig_header([], b"") + RB.header(ent, st)
-    ans = ctx.native.ask("paths", meta.hex())
     inr = all(i < nd for i in fl["idx"])
-    if fl["kind"] == "panic":
-        return ans == "panic", "real crate: get_file_paths -> " + ans[:60]
-    return (ans.startswith("ok") != inr) or ans == "panic", "real crate: get_file_paths with indexes %s over %d dirs -> %s" % (fl["idx"], nd, ans[:60])
+    ans = ""
+    for order in entry_orders(ent):
+        meta = RB.lead() + RB.sig_header([], b"") + RB.header(order, st)
+        ans = ctx.native.ask("paths", meta.hex())
+        if fl["kind"] == "panic":
+            if ans == "panic":
+                return True, "real crate: get_file_paths -> " + ans[:60]
+        elif (ans.startswith("ok") != inr) or ans == "panic":
+            return True, "real crate: get_file_paths with indexes %s over %d dirs (index entries in the order %s) -> %s" % (fl["idx"], nd, [e[0] for e in order], ans[:60])
+    return False, "real crate: get_file_paths with indexes %s over %d dirs -> %s" % (fl["idx"], nd, ans[:60])
 
 
 for _n, _d in ((1, 1), (2, 1), (2, 2), (1, 0), (0, 0), (3, 2)):
@@ -1643,7 +1673,7 @@ def replay_clear(ctx, fl):
 
 for _n, _s in ((1, 4), (2, 9), (0, 0), (1, 16)):
     HARNESSES["c16_clear_%d_%d" % (_n, _s)] = (lambda n, s: (lambda ctx: c16_clear(ctx, n, s)))(_n, _s)
-REPLAYERS["c16"] = (lambda prev: (lambda ctx, fl: replay_clear(ctx, fl) if fl.get("kind") == "clear" else prev(ctx, fl)))(REPLAYERS["c16"])
+REPLAYERS["c16"] = (lambda prev: (lambda ctx, fl: replay_clear(ctx, fl) if fl.get("kind") == "clear" else (replay_wsink(ctx, fl) if fl.get("kind") in ("wsink", "wpanic") else prev(ctx, fl))))(REPLAYERS["c16"])
 
 
 # ---------------------------------------------------------------------------------------------------------
@@ -2008,10 +2038,15 @@ def replay_deps(ctx, fl):
             ent.append((tag("RPMTAG_%s%s" % (pre, suffix)), ty, len(st), 2))
             st += data
         exp[k] = ",".join("%s:%x:%s" % (n.hex(), f, v.hex()) for n, f, v in zip(names, flags, vers))
-    meta = RB.lead() + RB.sig_header([], b"") + RB.header(sorted(ent), st)
     which = fl.get("which", "provides")
-    ans = ctx.native.ask("deps", meta.hex(), which)
-    return ans != "ok " + exp[which], "real crate: get_%s on a header with eight distinct triples -> %s (expected %s)" % (which, ans[:80], exp[which][:60])
+    ans = ""
+    for order in entry_orders(ent):
+        meta = RB.lead() + RB.sig_header([], b"") + RB.header(order, st)
+        ans = ctx.native.ask("deps", meta.hex(), which)
+        if ans != "ok " + exp[which]:
+            return True, "real crate: get_%s on a header with eight distinct triples (index entries %s by tag) -> %s (expected %s)" % (
+                which, "ascending" if order == sorted(ent) else "not ascending", ans[:80], exp[which][:60])
+    return False, "real crate: get_%s on a header with eight distinct triples -> %s (expected %s)" % (which, ans[:80], exp[which][:60])
 
 
 REPLAYERS["c05"] = (lambda prev: (lambda ctx, fl: replay_deps(ctx, fl) if fl.get("kind") == "c05deps" else prev(ctx, fl)))(REPLAYERS["c05"])
@@ -2197,10 +2232,15 @@ def replay_fe(ctx, fl):
     st += b"\0" * ((8 - len(st) % 8) % 8)
     ent.append((5009, "Int64", len(st), 1))
     st += struct.pack(">Q", 3 * n)
-    meta = RB.lead() + RB.sig_header([], b"") + RB.header(sorted(ent), st)
-    ans = ctx.native.ask("file_entries", meta.hex())
-    good = ans == "ok " + ",".join("3" for _ in range(n))
-    return not good, "real crate: get_file_entries sizes on a %d-file header (%s sizes, LONGSIZE total present) -> %s" % (n, "64-bit" if fl.get("long") else "32-bit", ans[:80])
+    ans = ""
+    for order in entry_orders(ent):
+        meta = RB.lead() + RB.sig_header([], b"") + RB.header(order, st)
+        ans = ctx.native.ask("file_entries", meta.hex())
+        good = ans == "ok " + ",".join("3" for _ in range(n))
+        if not good:
+            return True, "real crate: get_file_entries sizes on a %d-file header (%s sizes, LONGSIZE total present, index entries %s by tag) -> %s" % (
+                n, "64-bit" if fl.get("long") else "32-bit", "ascending" if order == sorted(ent) else "not ascending", ans[:80])
+    return False, "real crate: get_file_entries sizes on a %d-file header (%s sizes, LONGSIZE total present) -> %s" % (n, "64-bit" if fl.get("long") else "32-bit", ans[:80])
 
 
 for _n in (1, 2):
